@@ -50,6 +50,16 @@ def sample2d_cases(ctx: Ctx):
             x = float(r.choice([r.randint(0, (imax - 1) * 8) / 8.0, imax - 1, 0.0, -0.125, imax - 0.5, imax - 1 - 1 / 64]))
             y = float(r.choice([r.randint(0, (jmax - 1) * 8) / 8.0, jmax - 1, 0.0, -2.0, jmax + 1.0, jmax - 1 - 1 / 64]))
             pts.append((x, y))
+        if mask is not None and mask.sum() > 0:
+            # a hair's breadth from a masked node, towards a valid one: the valid node is the only one that counts,
+            # however small its weight
+            eps = float(r.choice([2.0 ** -30, 2.0 ** -40, 2.0 ** -17]))
+            for j in range(jmax):
+                for i in range(imax - 1):
+                    if mask[j, i] == 0 and mask[j, i + 1] == 1 and len(pts) < 14:
+                        pts.append((i + eps, float(j)))
+                    if mask[j, i] == 1 and mask[j, i + 1] == 0 and len(pts) < 14:
+                        pts.append((i + 1 - eps, float(j)))
         cases.append(dict(F=F, mask=mask, undef=undef, outside=outside, pts=pts))
     return cases
 
